@@ -750,6 +750,7 @@ func (e *Engine) checkCallAsserts(fc *fnCtx, st *State, c *ssa.CallCommon, instr
 	}
 	for _, cl := range fc.contract.Asserts[key] {
 		env := e.callSiteEnv(fc, st)
+		env.curBlock = instr.Block()
 		f := e.trSpec(env, cl.E).T
 		e.addObl(fc.fn, "assert", "["+key+"] "+cl.Text, pos, st.Reach, f)
 	}
